@@ -474,6 +474,59 @@ pub fn run_check(engine: &dyn Engine, spec: &CheckSpec) -> i32 {
     }
 }
 
+/// Maintenance tool (never part of a registered check): for every open known finding of
+/// `spec.property` that has no replay file yet, find a violation matching it in a seeded batch,
+/// minimise it and write `/verif/known_replays/<id>.json`.
+pub fn make_known_replays(engine: &dyn Engine, spec: &CheckSpec) -> i32 {
+    let base = pool::default_scratch_base();
+    let verif = PathBuf::from(VERIF_DIR);
+    let known: Vec<Finding> = findings::load(&verif.join("known_findings.json")).unwrap_or_default();
+    let cfg = PoolCfg {
+        workers: spec.workers,
+        timeout: spec.run_timeout,
+        scratch: base.join("batch"),
+        deadline: Some(Instant::now() + spec.batch_budget),
+    };
+    let jobs: Vec<u64> = (0..spec.runs).collect();
+    let results = pool::run_jobs(&cfg, &jobs, |j| engine.run_seeded(&spec.profile, spec.seed, j, spec.tier));
+    let ctx = Ctx {
+        engine,
+        scratch: base.join("min"),
+        workers: spec.workers,
+        run_timeout: spec.run_timeout,
+    };
+    let dir = verif.join("known_replays");
+    let _ = std::fs::create_dir_all(&dir);
+    let mut done: BTreeSet<String> = BTreeSet::new();
+    for (job, st) in &results {
+        let case = seeded_case(engine.name(), &spec.profile, spec.seed, *job, spec.tier);
+        let (vs, _) = status_to_violations(&spec.property, st, &case);
+        for v in vs {
+            if let Some(f) = findings::find_match(&known, &v) {
+                let path = dir.join(format!("{}.json", f.id));
+                if done.contains(&f.id) || path.exists() {
+                    continue;
+                }
+                let (mv, n) = minimise(&ctx, spec, &v);
+                if findings::find_match(&known, &mv).map(|g| g.id.clone()) != Some(f.id.clone()) {
+                    println!("{}: minimised case no longer matches the pattern, keeping the raw case", f.id);
+                    let doc = json!({"format": 1, "property": v.property, "engine": engine.name(), "case": v.case,
+                        "expect": {"verdict": v.verdict, "signature": v.sig}, "detail": v.detail});
+                    let _ = std::fs::write(&path, serde_json::to_vec_pretty(&doc).unwrap_or_default());
+                } else {
+                    let doc = json!({"format": 1, "property": mv.property, "engine": engine.name(), "case": mv.case,
+                        "expect": {"verdict": mv.verdict, "signature": mv.sig}, "detail": mv.detail});
+                    let _ = std::fs::write(&path, serde_json::to_vec_pretty(&doc).unwrap_or_default());
+                }
+                println!("{}: wrote {} ({} minimisation runs): {}", f.id, path.display(), n, mv.detail.chars().take(300).collect::<String>());
+                done.insert(f.id.clone());
+            }
+        }
+    }
+    pool::cleanup(&base);
+    0
+}
+
 /// Keep-sets for delta debugging over a list of length n: drop halves, quarters, ..., singles.
 pub fn ddmin_keepsets(n: usize) -> Vec<Vec<usize>> {
     let mut out = vec![];
